@@ -86,6 +86,11 @@ func TestEntry(t *testing.T) {
 		code = 0
 	case "selftest":
 		code = harness.SelfTestMain(t, root, args[1:])
+	case "israce":
+		code = 1
+		if p := harness.Registry[args[1]]; p != nil && p.Race {
+			code = 0
+		}
 	case "props":
 		for _, id := range harness.PropIDs() {
 			fmt.Println(id)
